@@ -578,7 +578,7 @@ BRIDGE = {
     "Rough.Props.GenConfig": {
         "rs_modules": ["EnvConfig", "FileConfig", "Config"],
         "namespace": "Rough.Props.GenConfig",
-        "theorems": ["file_getters", "env_getters", "GEN_start_file", "GEN_start_file_resolved", "GEN_start_env", "GEN_file_effective_is_written",
+        "theorems": ["file_getters", "env_getters", "GEN_start_file", "GEN_start_file_resolved", "GEN_file_effective_is_written_resolved", "GEN_file_out_of_range_refused_resolved", "GEN_start_env", "GEN_file_effective_is_written",
                      "GEN_file_out_of_range_refused", "GEN_env_missing_required", "GEN_env_out_of_range_refused"],
         "props": ["C16"],
     },
